@@ -112,6 +112,24 @@ def check_basis(case, ctx):
     ctx.check(len(many) == len(us), "basis_functions-shape", "basis_functions returned %d rows" % len(many))
     for row, j, u in zip(many, spans, us):
         ctx.check(list(row) == list(helpers.basis_function(p, kv, j, u)), "basis_functions", "list wrapper differs from single call")
+    # results belong to the caller: what it does with them (here: weighting the rows in place) cannot change a later answer
+    keep = [list(r) for r in many]
+    keep1 = list(helpers.basis_function(p, kv, spans[0], us[0]))
+    keepA = [list(r) for r in helpers.basis_function_all(p, kv, spans[0], us[0])]
+    for r in many:
+        for i in range(len(r)):
+            r[i] = r[i] * 3.0 + 1.0
+    first = helpers.basis_function(p, kv, spans[0], us[0])
+    for i in range(len(first)):
+        first[i] = -7.0
+    firstA = helpers.basis_function_all(p, kv, spans[0], us[0])
+    for r in firstA:
+        for i in range(len(r)):
+            r[i] = 5.0
+    ctx.check([list(r) for r in helpers.basis_functions(p, kv, spans, us)] == keep, "basis-depends-on-earlier-result",
+              "basis_functions called again after the caller edited the first result returns other values")
+    ctx.check(list(helpers.basis_function(p, kv, spans[0], us[0])) == keep1 and [list(r) for r in helpers.basis_function_all(p, kv, spans[0], us[0])] == keepA,
+              "basis-depends-on-earlier-result", "basis_function / basis_function_all called again after the caller edited the first result return other values")
 
 
 def check_ders(case, ctx):
@@ -157,6 +175,17 @@ def check_ders(case, ctx):
     for row, j, u in zip(many, spans, us):
         single = helpers.basis_function_ders(p, kv, j, u, order)
         ctx.check([list(r) for r in row] == [list(r) for r in single], "basis_functions_ders", "list wrapper differs from single call")
+    keep = [[list(r) for r in row] for row in many]
+    for row in many:
+        for r in row:
+            for i in range(len(r)):
+                r[i] = r[i] * 0.5 - 2.0
+    one_ = helpers.basis_function_ders(p, kv, spans[0], us[0], order)
+    for r in one_:
+        for i in range(len(r)):
+            r[i] = 9.0
+    ctx.check([[list(r) for r in row] for row in helpers.basis_functions_ders(p, kv, spans, us, order)] == keep, "basis-depends-on-earlier-result",
+              "basis_functions_ders called again after the caller edited the first result returns other values")
 
 
 # ------------------------------------------------------------------------------------------------ knot vectors
